@@ -23,6 +23,32 @@ def app(prop, theorems, explanation, assumptions, facts=None):
 
 
 PROPS = {
+    "C03": {
+        "module": "Shutter.Properties.C03",
+        "theorems": ["C03_only_correct", "C03_complete", "C03_keys_delivered", "C03_agree"],
+        "driver": {"pkg": "./cmd/netcheck"},
+        "trusted_base": [KERNEL + " (these theorems use Mathlib through C01: Mathlib.LinearAlgebra.Lagrange)", CORR,
+                         "noderig: n real handler stacks per flavour (core handlers, flavour handlers, flavour middleware) over pgfake + "
+                         "kdb, wired by the driver instead of libp2p; real gossip propagation, peer scoring and retries are not modelled",
+                         "modelled, not verified: BLS12-381 (verify i s <-> s = f(x_i)•H as in C01); the executable model instance is "
+                         "arithmetic modulo the BLS scalar order on discrete logarithms",
+                         "the Gnosis / Shutter-service signature collection is exercised by the rig (honest messages must be accepted "
+                         "by every peer and by the access node) but the theorems are about the core tables"],
+        "explanation": "Theorems (Lean + Mathlib, any field, module, polynomial of degree < t, identity points, n, t, any list of "
+                       "identities): after ANY sequence of accepted events (honest keypers' share messages in any order with any "
+                       "repetitions, keys messages, the own trigger) every stored key is the epoch secret key of its identity "
+                       "(C03_only_correct, hence C03_agree between keypers and schedules); if at the arrival of an honest share message "
+                       "shares of >= t distinct keypers (own included) have been seen, then from then on the keyper stores the correct "
+                       "key of every identity of the release (C03_complete); a delivered keys message completes any keyper "
+                       "(C03_keys_delivered). The rig runs n real stacks per flavour through sampled (thorough: also exhaustive for "
+                       "n=3,t=2) schedules with triggers anywhere, lost shares (<= n-t per receiver) and duplicates: every honest message "
+                       "must be accepted by every peer (and the access node), handled without error, stored keys must verify against "
+                       "the eon key, and every keyper that saw >= t distinct keypers' shares or a keys message must hold all keys; each "
+                       "node's event sequence is also run through the model.",
+        "assumptions": ["C03_complete needs the threshold to be reached at the arrival of a share message; when it is completed by the "
+                        "keyper's own shares (trigger after receipt) nothing aggregates: open known finding own-share-completes-threshold",
+                        "a Gnosis keyper that was not triggered itself never forwards keys (no current trigger row); it still stores them"],
+    },
     "C05": {
         "module": "Shutter.Properties.C05",
         "theorems": ["C05_sites_pinned", "C05_all_classified", "C05_total_guardedIndex", "C05_total_orderLoop",
